@@ -174,20 +174,10 @@ Section O14.
     files_ok i o && docs_ok i o && no_backup_left i o.
 End O14.
 
-(* known findings (scheme: CorrC15): 1 below depth 2 ByKey asks the key strategy about a truncated dotted name;
-   2 differing files whose name merely starts like the state point / document file are never offered to the
-   strategy (un-anchored implicit exclude patterns); 3 neither are files named like filecmp.DEFAULT_IGNORES *)
-Definition known_tag_C14 (c : case_sync) : N :=
-  if negb (holds_C14 (cs_frepr c) (cs_case c))
-     && holds_C14 (cs_frepr c) (model_case (cs_frepr c) cfg_fixed (c_in (cs_case c)))
-  then (if active (cs_frepr c) 7 (c_in (cs_case c)) then 1%N
-        else if active (cs_frepr c) 9 (c_in (cs_case c)) then 2%N
-        else if active (cs_frepr c) 8 (c_in (cs_case c)) then 3%N else 0%N)
-  else 0%N.
+(* no open known finding for C14 (truncated ByKey name, un-anchored patterns, DEFAULT_IGNORES are repaired) *)
 
 Definition case_C14 := case_sync.
 Definition mismatch_C14 (c : case_C14) : bool := mismatch_case c.
 Definition violation_C14 (c : case_C14) : bool := negb (holds_C14 (cs_frepr c) (cs_case c)).
 Definition mismatches_C14 (cs : list case_C14) : list N := indices_where mismatch_C14 cs.
 Definition violations_C14 (cs : list case_C14) : list N := indices_where violation_C14 cs.
-Definition known_C14 (cs : list case_C14) : list N := tagged known_tag_C14 cs.
